@@ -896,3 +896,72 @@ def m_lower(ex, node, st, rt):
 
 
 CONTAINER_METHODS["lower"] = m_lower
+
+
+# --- more dict methods ------------------------------------------------------------------
+def _dict_guard(ex, node, s, rt, outs, kt=None):
+    bad = s.fork().assume(z3.Not(isinst(rt, "dict")))
+    if ex.feasible(bad):
+        outs.append(_exc(ex, bad, "AttributeError"))
+    s.assume(isinst(rt, "dict"))
+    if kt is not None:
+        unh = s.fork().assume(z3.Not(T.hashable(kt)))
+        if ex.feasible(unh):
+            outs.append(_exc(ex, unh, "TypeError"))
+        s.assume(T.hashable(kt))
+
+
+def m_pop(ex, node, st, rt):
+    outs = []
+    for s, k, vs in _args(ex, node, st):
+        if k == "exc":
+            outs.append((s, k, vs))
+            continue
+        if ex.container_kind(node.func.value) != "dict":
+            raise Unsupported("pop on non-dict")
+        kt = ex.val_of(vs[0])
+        _dict_guard(ex, node, s, rt, outs, kt)
+        h = Heap(ex, s)
+        present = s.fork().assume(h.dhas(rt, kt))
+        absent = s.fork().assume(z3.Not(h.dhas(rt, kt)))
+        if ex.feasible(present):
+            hp = Heap(ex, present)
+            v = hp.dget(rt, kt)
+            ex.check_store_allowed(present, rt, node)
+            ex.on_store(present, rt)
+            hp.set("dlen", z3.Store(hp.arr("dlen"), rt, hp.dlen(rt) - 1))
+            hp.set("dhas", z3.Store(hp.arr("dhas"), rt, z3.Store(hp.arr("dhas")[rt], kt, False)))
+            outs.append((present, "val", sv_val(v)))
+        if ex.feasible(absent):
+            if len(vs) > 1:
+                outs.append((absent, "val", vs[1]))
+            else:
+                outs.append(_exc(ex, absent, "KeyError"))
+    return outs
+
+
+def m_setdefault(ex, node, st, rt):
+    outs = []
+    for s, k, vs in _args(ex, node, st):
+        if k == "exc":
+            outs.append((s, k, vs))
+            continue
+        if ex.container_kind(node.func.value) != "dict":
+            raise Unsupported("setdefault on non-dict")
+        kt = ex.val_of(vs[0])
+        default = ex.val_of(vs[1]) if len(vs) > 1 else T.None_
+        _dict_guard(ex, node, s, rt, outs, kt)
+        h = Heap(ex, s)
+        present = s.fork().assume(h.dhas(rt, kt))
+        absent = s.fork().assume(z3.Not(h.dhas(rt, kt)))
+        if ex.feasible(present):
+            outs.append((present, "val", sv_val(Heap(ex, present).dget(rt, kt))))
+        if ex.feasible(absent):
+            ex.check_store_allowed(absent, rt, node)
+            ex.dict_store(absent, rt, kt, default)
+            outs.append((absent, "val", sv_val(default)))
+    return outs
+
+
+CONTAINER_METHODS["pop"] = m_pop
+CONTAINER_METHODS["setdefault"] = m_setdefault
